@@ -185,6 +185,24 @@ def rule_refcnt_siblings(fx, col):
             col.add('REFCNT-SIBLINGS', '<%s>|null symmetry' % kind, sym and same_pred and guarded,
                     'null is produced in into_ptr when %s, in as_ptr when %s; from_ptr tests is_null: %s, inner conversion only when non-null: %s'
                     % (prod['into_ptr'], prod['as_ptr'], from_null, guarded))
+        # every std conversion / count operation inside the impl for kind K is K's own (`sync::Weak::from_raw` in the impl for
+        # sync::Weak — `rc::Weak::from_raw` type-checks on the same `*const T` and decrements the atomic counter non-atomically), and
+        # the pointee is never moved out of its allocation (`Arc::into_inner`, `try_unwrap`, `unwrap_or_clone`: the destructor would
+        # run on a copy at another address, after the allocation is gone — RefCnt's documented "should be Pin" contract)
+        fam = None
+        for pre in ('std::sync::Arc<', 'std::rc::Rc<', 'std::sync::Weak<', 'std::rc::Weak<'):
+            if st.startswith(pre):
+                fam = pre[:-1]
+        for nm, b in sorted(ms.items()):
+            for bb, t in b.calls(include_cleanup=False):
+                pth = t['callee'].get('path', '')
+                m_ = re.match(r'^(std::(?:sync|rc)::(?:Arc|Rc|Weak))::<', pth)
+                if fam and m_:
+                    col.add('REFCNT-SIBLINGS', '<%s>::%s|%s is the kind\'s own' % (kind, nm, U.callee_name(t)), m_.group(1) == fam,
+                            '%s called in the impl for %s' % (pth, fam), b.loc(bb))
+                if m_ and U.callee_name(t) in ('into_inner', 'try_unwrap', 'unwrap_or_clone', 'make_mut', 'get_mut', 'get_mut_unchecked'):
+                    col.fail('REFCNT-SIBLINGS', '<%s>::%s|pointee stays in its allocation' % (kind, nm),
+                             '%s moves (or hands out exclusively) the pointee: the value must be destroyed in place by the drop of the last handle' % pth, b.loc(bb))
         # the emptiness test of a Weak kind compares the handle with a FRESH empty one (`x.ptr_eq(&Weak::new())`): a comparison of
         # the handle with itself, or with anything else, makes every (or an arbitrary) value empty
         for nm in ('into_ptr', 'as_ptr'):
